@@ -11,8 +11,9 @@ This runner ties the model to /repo:
           arguments, the keys of the dump_local_context dict)  vs  what the model says the statement hands over
   L-e2e   generated template sets in a DictLoader whose templates PRINT probes `{{ name|default('~') }}`; the same set is sent
           to the Lean driver as a tree; reply = the text under the transcription and the text under the documentation.
-          real == transcription is the tie; transcription != documentation is a property failure found by the model and
-          confirmed on the real code (F16); real != transcription is decided by the documentation's text.
+          real == transcription is the tie; transcription != documentation would be a property failure found by the model
+          and confirmed on the real code (that is how F16 was found; none since 1454414); real != transcription is decided
+          by the documentation's text.
 Python never decides what is visible: it only writes the tree as Jinja source and compares strings.
 """
 from __future__ import annotations
@@ -51,35 +52,34 @@ CLAIM = dict(
               "and of template selection, against a specification written from the docs + unit, generated-code and "
               "end-to-end correspondence on generated template sets whose targets print what they see",
     text="Theorems (Props/C05.lean), for all contexts, locals, globals, flags and value types: `with context` (include and "
-         "import alike) never fails and gives the target exactly the current local variables over the current context, a "
-         "non-missing local winning, a `missing` one skipped (with_context_sees, get_all_is_resolve), where the locals dict "
-         "gives every name its innermost declaration among the enclosing scopes (locals_are_innermost); an include sees that, "
-         "or without context exactly the target's own globals, independent of everything in the including template "
-         "(include_ctx, include_without_independent); a default import sees exactly the imported template's globals then the "
-         "importing template's globals, independent of render variables, context variables and locals, PROVIDED the context "
-         "is the importing template's own (GlobalsKeysOf) and no value in its parent shadows one of that template's global "
-         "keys (import_ctx; import_ctx_default_root states the hypothesis for a top-level render: no render variable is named "
-         "like such a key). The unconditional statement ImportStatement is refuted in Findings/F16.lean (known finding F16, "
-         "three faces); the KeyError branch is characterised exactly (import_default_keyerror_iff). Whatever is served from "
-         "the cached default module was rendered with a context that depends on no importer (cached_module_is_context_free, "
-         "uncached_import_has_extra). A module's attributes are exactly the public names whose current top-level binding is a "
-         "set / block set / macro, with that value, for every order of assignments and imports (module_exports). ignore missing "
-         "skips the statement iff nothing named exists and changes nothing else (ignore_missing_only_missing, "
-         "ignore_missing_keeps_everything_else); a list selects the first entry that exists (select_first_existing). Tie: real "
-         "new_context / get_all / get_exported / _get_default_module(_async) / include resolution against the primitives; the "
-         "calls emitted for every include/import of every generated template and the keys of their dump_local_context dict "
-         "against the model; output of render, generate, render_async, generate_async, make_module(_async), .module for an "
-         "exhaustive small scope (statement kind x context flag x ignore missing x 21 places where the local is defined x "
-         "shadowing pattern; every sequence of <=3 top-level binding events of a module) and random acyclic template sets "
+         "import alike) gives the target exactly the current local variables over the current context, a non-missing local "
+         "winning, a `missing` one skipped (with_context_sees, get_all_is_resolve), where the locals dict gives every name "
+         "its innermost declaration among the enclosing scopes (locals_are_innermost); an include sees that, or without "
+         "context exactly the target's own globals, independent of everything in the including template (include_ctx, "
+         "include_without_independent); a default import sees exactly the imported template's globals then the importing "
+         "template's globals — full strength: whatever the render variables, context variables, shared parents and locals "
+         "are (import_ctx proves ImportStatement; import_without_independent). The only hypothesis, CreatedFor, says which "
+         "template the importing context belongs to (its _globals read like that template's globals, whose keys are among "
+         "its globals_keys); every context the runtime builds has it (created_for_new_context, created_for_derived). "
+         "Whatever is served from the cached default module was rendered with a context that depends on no importer "
+         "(cached_module_is_context_free, uncached_import_has_extra). A module's attributes are exactly the public names "
+         "whose current top-level binding is a set / block set / macro, with that value, for every order of assignments and "
+         "imports (module_exports). ignore missing skips the statement iff nothing named exists and changes nothing else "
+         "(ignore_missing_only_missing, ignore_missing_keeps_everything_else); a list selects the first entry that exists "
+         "(select_first_existing). Tie: real new_context / get_all / get_exported / Context.derived / "
+         "_get_default_module(_async) / include resolution against the primitives; the calls emitted for every "
+         "include/import of every generated template and the keys of their dump_local_context dict against the model; "
+         "output of render, generate, render_async, generate_async, make_module(_async), .module for the three F16 replays, "
+         "an exhaustive small scope (statement kind x context flag x ignore missing x 21 places where the local is defined "
+         "x shadowing pattern; every sequence of <=3 top-level binding events of a module) and random acyclic template sets "
          "(loops, macros, with, call blocks, blocks incl. scoped, nested imports, aliases colliding with assignments, name "
          "lists, missing / broken / undefined targets, Template objects as data) against the interpreter's text under the "
          "transcription; a difference is decided by the interpreter's text under the documentation.",
     note="Trusted: Lean kernel; hand models incl. the reference interpreter (tied by correspondence only); the spec's reading "
-         "of 'globals' and of precedence. Known finding F16 (reproduced on the real code, 3 keys): a default import reads the "
-         "importing template's global keys from context.parent, so (1) a render variable / inherited value of the same name is "
-         "seen by a module imported WITHOUT context, (2) KeyError when the key is absent from a shared parent (template with "
-         "own globals included with context), (3) inside a scoped block the derived context has no globals_keys and the "
-         "module sees none of the importer's globals.",
+         "of 'globals' and of precedence. Finding F16 (three faces: render variable shadowing an importer global; KeyError in "
+         "an included-with-context template with own globals; scoped block losing the importer's globals) was found by this "
+         "check and fixed in /repo by 1454414; the model follows the fixed read site (ctx._globals), the three replays are "
+         "permanent generator productions, a revert is reported under the findings' keys with concrete inputs.",
     design_ref="§5 C05",
 )
 
@@ -517,6 +517,29 @@ def export_scope(ctx, rng):
             yield ("exports", (entry,) + tuple(seq)), w
 
 
+SHOW_LIB = [("macro", "show", [], [("probe", "m", None)]), ("probe", "b", None)]
+
+
+def faces_scope():
+    """the three replays of F16 (fixed by 1454414), kept as productions of their own: a recurrence is reported under the
+    finding's key with this input"""
+    use = [("import", ("lit", "lib"), "l", False, False), ("call", ("attr", "l", "show"), []), ("modprint", "l"),
+           ("from", ("lit", "lib"), [("show", "sh0")], False, False), ("call", ("name", "sh0"), [])]
+    for is_async in (False, True):
+        yield ("face", (F16_KEY, is_async)), World({}, [
+            dict(name="main", ok=True, tplg={"g": "GLOBAL"}, body=list(use)),
+            dict(name="lib", ok=True, tplg={}, body=list(SHOW_LIB))], {"g": ("s", "LOCAL")}).finish(["g", "u"])
+        yield ("face", (F16B_KEY, is_async)), World({}, [
+            dict(name="main", ok=True, tplg={}, body=[("include", [("lit", "B")], False, True, False, False),
+                                                     ("for", "i", ["1"], [("include", [("lit", "B")], False, True, False, True)])]),
+            dict(name="B", ok=True, tplg={"g": "GB"}, body=list(use)),
+            dict(name="lib", ok=True, tplg={}, body=list(SHOW_LIB))], {}).finish(["g", "u"])
+        yield ("face", (F16C_KEY, is_async)), World({}, [
+            dict(name="main", ok=True, tplg={"g": "G"}, body=[("block", "b", True, list(use)),
+                                                             ("for", "i", ["1"], [("block", "c", True, list(use))])]),
+            dict(name="lib", ok=True, tplg={}, body=list(SHOW_LIB))], {}).finish(["g", "u"])
+
+
 class TplGen:
     """random body for template number `idx`; may include / import only templates with a larger number (acyclic)"""
 
@@ -934,8 +957,10 @@ def run_unit(ctx, res, jinja2):
         except KeyError:
             got, cached = "KeyError", None
         parent = dict(sctx.parent)
+        # `_globals` (1454414); a tree without it is given what the contract says: the importing template's globals
+        cglobals = dict(getattr(sctx, "_globals", None) or {**envg, **srcg})
         reqs.append([Atom("c05-unit"), Atom("target"), env_sx(parent), env_sx(cvars), sorted(sctx.globals_keys),
-                     [[k, x] if x is not runtime.missing else [k] for k, x in locs.items()],
+                     env_sx(cglobals), [[k, x] if x is not runtime.missing else [k] for k, x in locs.items()],
                      env_sx({**envg, **tgtg}), Atom(kind), wc])
 
         def conv(r, names=names):
@@ -946,6 +971,18 @@ def run_unit(ctx, res, jinja2):
         checks.append(("target_context", (got, cached), conv,
                        dict(kind=kind, with_context=wc, env_globals=envg, importer_globals=srcg, target_globals=tgtg,
                             render_vars=rv, context_vars=cvars, locals={k: str(x) for k, x in locs.items()}, is_async=is_async)))
+    # Context.derived (scoped blocks): parent, globals_keys and _globals of the derived context
+    for _ in range(ctx.pick(100, 1000)):
+        g, rv, cv = rand_env(rng, "g", 0.4), rand_env(rng, "r", 0.4), rand_env(rng, "c", 0.3)
+        locs = {k: (f"l{k}" if rng.random() < 0.7 else runtime.missing) for k in UNAMES if rng.random() < 0.4}
+        c = runtime.new_context(env, "t", {}, dict(rv), False, dict(g), None)
+        c.vars.update(cv)
+        d = c.derived(dict(locs))
+        reqs.append([Atom("c05-unit"), Atom("derived"), env_sx(dict(c.parent)), env_sx(cv), sorted(c.globals_keys), env_sx(g),
+                     [[k, x] if x is not runtime.missing else [k] for k, x in locs.items()]])
+        checks.append(("derived", (dict(d.parent), sorted(d.globals_keys), dict(getattr(d, "_globals", {}))),
+                       lambda r: (dict_of(r[0][0]), sorted(r[0][1]), dict_of(r[1])),
+                       dict(globals=g, render_vars=rv, context_vars=cv, locals={k: str(x) for k, x in locs.items()})))
     # which template an include statement renders
     opts = ["found-a", "found-b", "notfound", "undefined", "broken", "obj"]
     combos = [c for r in range(0, ctx.pick(3, 4)) for c in itertools.product(opts, repeat=r)]
@@ -998,6 +1035,8 @@ def key_for(tag, world_case, flavour):
         return f"C05:{kind}:{'with' if with_ctx else 'without'}-context:{where}"
     if tag[0] == "exports":
         return f"C05:module-exports:{flavour}"
+    if tag[0] == "face":
+        return tag[1][0]
     return f"C05:random:{flavour}"
 
 
@@ -1049,7 +1088,8 @@ def run(ctx, res):
     stats = {"evaluations": 0, "oom": 0, "oom_why": {}, "errors": {}, "divergent": 0}
     unit_counts = run_unit(ctx, res, jinja2)
 
-    cases = list(small_scope(ctx))
+    cases = list(faces_scope())
+    cases += list(small_scope(ctx))
     cases += list(export_scope(ctx, ctx.rng("exports")))
     n_small = len(cases)
     rng = ctx.rng("random")
@@ -1064,7 +1104,9 @@ def run(ctx, res):
     distinct, sizes, kinds = set(), {}, {}
     for ci, (tag, w) in enumerate(cases):
         by_mode = {m: replies[3 * ci + j] for j, m in enumerate(("render", "module-vars", "module"))}
-        if tag[0] == "exports":
+        if tag[0] == "face":
+            flavours = ["render_async", "generate_async"] if tag[1][1] else ["render", "generate"]
+        elif tag[0] == "exports":
             flavours = ["make_module", "module", "make_module_async"] if w.entry == "lib" else \
                 (["render", "render_async"] if not ctx.quick else [["render"], ["render_async"]][ci % 2])
         elif tag[0] == "small" and ctx.quick:     # one environment per small-scope case in the quick tier
@@ -1096,7 +1138,7 @@ def run(ctx, res):
                  "layers is new"),
         "exhaustive_small_scope": n_small,
         "random_sets": len(cases) - n_small,
-        "samples": [cases[7][1].describe(), cases[-1][1].describe()],
+        "samples": [cases[0][1].describe(), cases[13][1].describe(), cases[-1][1].describe()],
         "out_of_model": stats["oom"], "out_of_model_reasons": stats["oom_why"],
         "model_error_kinds": stats["errors"],
         "cases_where_transcription_differs_from_documentation": stats["divergent"],
